@@ -82,6 +82,8 @@ pub enum BankEdit {
     Corrupt(u16, u16, u8),
     /// one PadWing chunk bank (the i-th of them) filed under another PadWing board's name
     MisnamePwbChunk(u16, u8),
+    /// a second, different but well-formed TRG bank (other output counter and / or timestamp), at position `at`
+    SecondTrg { output: u32, timestamp: u32, at: u16 },
 }
 
 pub fn bank_name() -> impl Strategy<Value = String> {
@@ -106,6 +108,7 @@ pub fn bank_edit() -> impl Strategy<Value = BankEdit> {
         2 => (bank_name(), vec(any::<u8>(), 0..=100)).prop_map(|(n, d)| BankEdit::Insert(n, d)),
         1 => (any::<u16>(), any::<u16>(), any::<u8>()).prop_map(|(i, p, v)| BankEdit::Corrupt(i, p, v)),
         2 => (any::<u16>(), 1u8..71).prop_map(|(i, d)| BankEdit::MisnamePwbChunk(i, d)),
+        2 => (prop_oneof![Just(4u32), Just(5u32), Just(6u32), Just(0u32), any::<u32>()], any::<u32>(), any::<u16>()).prop_map(|(output, timestamp, at)| BankEdit::SecondTrg { output, timestamp, at }),
     ]
 }
 
@@ -140,6 +143,11 @@ pub fn apply_bank_edits(banks: &mut Vec<Bank>, edits: &[BankEdit]) {
                         banks[k].0 = format!("PC{}", boards[(b + *d as usize) % 71].0);
                     }
                 }
+            }
+            BankEdit::SecondTrg { output, timestamp, at } => {
+                let o = (*output).min(u32::MAX - 2);
+                let bank = ("ATAT".to_string(), oracles::trg::TrgModel::valid(o, o, o + 1, o + 2, *timestamp).encode());
+                banks.insert(pick(*at, n + 1), bank);
             }
             BankEdit::Corrupt(i, p, v) if n > 0 => {
                 let d = &mut banks[pick(*i, n)].1;
